@@ -298,6 +298,54 @@ def listener_status_other(i: int) -> bool:
     return type(status) is int and 0 <= status <= 255 and (status == 0) == (i in (0, 2)) and STATE["calls"] == []
 
 
+def _after_failed_run_case(bad, good):
+    """One application: a run that is REJECTED (bad command line for `work`), then a good run of the same command: the handler gets the arguments of ITS line."""
+    app = _build(False)
+    STATE["result"], STATE["exc"], STATE["listener"] = 0, None, 0
+    bad_line = [["work", "x", "--bogus"], ["work", "x", "y", "z"], ["work", "--flag=1"], ["nope"]][bad]
+    s0, o0, e0 = _run(app, bad_line)
+    if s0 == 0 or STATE["calls"]:
+        return False
+    good_line, want = [(["work"], {"name": None}), (["work", "q"], {"name": "q"}), (["work", "sub"], None)][good]
+    s1, o1, e1 = _run(app, good_line)
+    if s1 != 0 or len(STATE["calls"]) != 1:
+        return False
+    return STATE["calls"][0][0] == ("work" if want is not None else "work sub") and (want is None or STATE["calls"][0][1] == want)
+
+
+def after_failed_run(bad: int, good: int) -> bool:
+    """
+    pre: 0 <= bad <= 3 and 0 <= good <= 2
+    post: _
+    """
+    from vf.sym import conc_int
+    return untraced(_after_failed_run_case, conc_int(bad, 0, 3), conc_int(good, 0, 2))
+
+
+def _ascii_case(kind, vi, msg_i):
+    from clikit.io.output_stream.stream_output_stream import StreamOutputStream
+    msg = ["plain", "two\nlines", "<b>x</b>"][msg_i]
+    STATE["result"], STATE["exc"], STATE["listener"] = 0, (kind, msg), 0
+    import tempfile
+    # real files opened with an ASCII encoding (what a pipe or log file under LANG=C is): writing anything else raises UnicodeEncodeError
+    with tempfile.TemporaryFile("w+", encoding="ascii") as out, tempfile.TemporaryFile("w+", encoding="ascii") as err:
+        del STATE["calls"][:]
+        status = APP.run(ArgvArgs(["app", "work", "x"] + VERB[vi]), StringInputStream(""), StreamOutputStream(out), StreamOutputStream(err))
+        out.seek(0)
+        err.seek(0)
+        text = out.read() + err.read()
+    return type(status) is int and 1 <= status <= 255 and (EXC_KINDS[kind] == "KeyboardInterrupt" or text != "")
+
+
+def run_exception_ascii(kind: int, vi: int, msg_i: int) -> bool:
+    """
+    pre: 0 <= kind < len(EXC_KINDS) and 0 <= vi <= 3 and 0 <= msg_i <= 2
+    post: _
+    """
+    from vf.sym import conc_int
+    return untraced(_ascii_case, conc_int(kind, 0, len(EXC_KINDS) - 1), conc_int(vi, 0, 3), conc_int(msg_i, 0, 2))
+
+
 def no_other_handler(which: int, r: int) -> bool:
     """
     pre: 0 <= which <= 5
@@ -329,6 +377,8 @@ def conditions(tier):
         {"name": "no_other_handler", "fn": no_other_handler, "timeout": t, "bounds": "3 commands x result in -2..2"},
         {"name": "listener_status", "fn": listener_status, "timeout": t, "bounds": "pre-handle listener that handles the event with status = every int; 4 verbosity switches"},
         {"name": "listener_status_other", "fn": listener_status_other, "timeout": t, "bounds": "pre-handle listener that handles the event with status None / True / False / 300 / -1 / 255"},
+        {"name": "after_failed_run", "fn": after_failed_run, "timeout": t, "bounds": "one application: a rejected run of a command (unknown option / surplus arguments / value on a flag / undefined command), then a good run: handler called once with the arguments of its own line"},
+        {"name": "run_exception_ascii", "fn": run_exception_ascii, "timeout": t, "bounds": "every exception kind x 4 verbosity switches x 3 messages on output streams that can only encode ASCII: the run still answers with a status and a report"},
         {"name": "late_listener", "fn": late_listener, "timeout": t, "bounds": "pre-handle listener (passes / handles / raises) registered after a first run, priority -1/0/1"},
     ]
     for kind in range(len(EXC_KINDS)):
